@@ -23,11 +23,12 @@ type access struct {
 }
 
 type fn struct {
-	name    string
-	body    *ast.BlockStmt
-	recv    string
-	lockPos token.Pos // position of requestMutex.Lock() in this function, 0 = none
-	acc     []struct {
+	name      string
+	body      *ast.BlockStmt
+	recv      string
+	lockPos   token.Pos // position of requestMutex.Lock() in this function, 0 = none
+	unlockPos token.Pos // position of an explicit (non-deferred) requestMutex.Unlock(), 0 = held to the end
+	acc       []struct {
 		a   access
 		pos token.Pos
 	}
@@ -145,6 +146,9 @@ func main() {
 				if f == h && lock != "none" {
 					b = a.pos < h.lockPos
 				}
+				if f.unlockPos != 0 && a.pos > f.unlockPos {
+					b = true // the mutex was released explicitly before this access
+				}
 				aa := a.a
 				aa.Bare = b
 				k := fmt.Sprintf("%s/%v/%v", aa.Struct, aa.Write, aa.Bare)
@@ -161,6 +165,9 @@ func main() {
 					}
 					if f == h && lock != "none" {
 						b = c.pos < h.lockPos
+					}
+					if f.unlockPos != 0 && c.pos > f.unlockPos {
+						b = true
 					}
 					walk(g, b, depth+1, visiting)
 				}
@@ -212,6 +219,13 @@ func scan(x *fn) {
 		return s, ok
 	}
 	written := map[ast.Node]bool{}
+	deferred := map[ast.Node]bool{}
+	ast.Inspect(x.body, func(n ast.Node) bool {
+		if d, ok := n.(*ast.DeferStmt); ok {
+			deferred[d.Call] = true
+		}
+		return true
+	})
 	ast.Inspect(x.body, func(n ast.Node) bool {
 		switch v := n.(type) {
 		case *ast.AssignStmt:
@@ -237,6 +251,11 @@ func scan(x *fn) {
 				if inner, ok := sel.X.(*ast.SelectorExpr); ok && inner.Sel.Name == "requestMutex" && name == "Lock" {
 					if x.lockPos == 0 {
 						x.lockPos = v.Pos()
+					}
+				}
+				if inner, ok := sel.X.(*ast.SelectorExpr); ok && inner.Sel.Name == "requestMutex" && name == "Unlock" && !deferred[v] {
+					if x.unlockPos == 0 {
+						x.unlockPos = v.Pos()
 					}
 				}
 				if s, ok := writeCalls[name]; ok {
